@@ -150,6 +150,13 @@ func (s *runState) pickPath() string {
 
 func (s *runState) pickPath0() string {
 	t := s.t
+	if big := s.m.root.kids["big"]; big != nil && big.dir && t.Chance(1, 4) {
+		// an entry of the large directory that is being listed (class readdir), or a new name in it
+		if ks := sortedKids(big); len(ks) > 0 && t.Chance(3, 4) {
+			return "big/" + ks[t.Choose(len(ks))]
+		}
+		return fmt.Sprintf("big/new%d", t.Choose(5))
+	}
 	switch t.Weighted(6, 3, 2, 1, 1, 1) {
 	case 0:
 		return s.pickName()
@@ -1482,7 +1489,7 @@ func (s *runState) opRmdir() {
 	apply := func() {
 		s.m.markDrift(r.lk.target)
 		delete(r.lk.parent.kids, r.lk.name)
-		s.m.markDirChanged(r.lk.parent)
+		s.m.markDirChanged(r.lk.parent, r.lk.name)
 		for _, f := range s.m.fds {
 			if f.ino == r.lk.target {
 				f.drift = true
@@ -1527,7 +1534,7 @@ func (s *runState) opUnlink() {
 		s.m.markDrift(r.lk.target)
 		r.lk.target.nlink = 0
 		delete(r.lk.parent.kids, r.lk.name)
-		s.m.markDirChanged(r.lk.parent)
+		s.m.markDirChanged(r.lk.parent, r.lk.name)
 	}
 	if s.faultRelax(what, got, want) {
 		if want == 0 && got == 0 {
@@ -1612,7 +1619,7 @@ func (s *runState) opRename() {
 		}
 		delete(r1.lk.parent.kids, r1.lk.name)
 		r2.lk.parent.kids[r2.lk.name] = src
-		s.m.markDirChanged(r1.lk.parent)
+		s.m.markDirChanged(r1.lk.parent, r1.lk.name)
 		s.m.markDirChanged(r2.lk.parent, r2.lk.name)
 	}
 	if s.faultRelax(what, got, want) {
